@@ -17,7 +17,7 @@ CLASS_POOL = [
     [0, 1], [1, 2, 3, 4], [3, 1, 2, 0], [0, 300, 7], list(range(2, 11)), [0, 2, 1, 3], [0, 3, 1, 2, 4],
 ]
 BAD_KINDS = ['rows', 'length', 'words', 'type_traces', 'type_data', 'float_data', 'first_range', 'neg_auto',
-             'lowmem', 'not_built', 'tpl_two_words', 'traces_1d']
+             'lowmem', 'not_built', 'tpl_two_words', 'traces_1d', 'f16_traces']
 
 
 RULE = {
@@ -421,6 +421,9 @@ def bad_applicable(bk, kind, first, auto):
         return True
     if bk == 'traces_1d':
         return kind != 'ttacc'
+    if bk == 'f16_traces':
+        # half-precision traces pass every Python-level check and are refused inside the compiled kernel call (numba has no float16 arrays)
+        return kind in ('anova', 'nicv', 'snr', 'mia', 'tbuild')
     if bk == 'length':
         # as a very first call a different length is simply a valid call (nothing to differ from),
         # except for template matching where the building phase fixed the length
@@ -553,6 +556,8 @@ def _bad_args(scn, bk, tr, da):
         return tr.tolist(), da
     if bk == 'traces_1d':
         return np.ascontiguousarray(tr[:, 0]), da
+    if bk == 'f16_traces':
+        return tr.astype('float16'), da
     if bk == 'type_data':
         return tr, None
     if bk == 'float_data':
